@@ -53,7 +53,14 @@ class Surface:
             k = n.get("k")
             if k == "if":
                 cond = n["cond"]
-                sk = any(is_call(x, "Option::<T>::is_none") for x in walk(cond))
+                sk = False
+                for x in walk(cond):
+                    if x.get("k") in ("call", "mcall") and (x.get("f") or ""):
+                        nm = (x.get("f") or "")
+                        if nm.endswith("Option::<T>::is_none"):
+                            sk = sk or "is_none"
+                        elif nm.endswith(("::is_empty", "is_default", "::is_zero")) or "is_" in nm.rsplit("::", 1)[-1]:
+                            sk = sk or nm.rsplit("::", 2)[-2] + "::" + nm.rsplit("::", 1)[-1]
                 rec(n["then"], skip or sk)
                 rec(n.get("else"), skip)
                 return
@@ -300,6 +307,40 @@ def j2(rep, F, S):
             if k not in used:
                 rep.add(Finding("J2", db["path"], "unused:%s" % k,
                                 "%s::deserialize reads key %s and drops it" % (G.short(t), k), db["file"], db["line"]))
+    return r
+
+
+def j5(rep, F, S):
+    r = rep.rule("J5", "skip symmetry: a key the serialiser may omit (skip_serializing_if) is optional for the "
+                       "deserialiser: the field is an Option or has a default; otherwise the library cannot read back "
+                       "the JSON it wrote", floor=100)
+    for t, a in sorted(F.adts.items()):
+        if a["kind"] != "struct" or a.get("exp") or not t.startswith(("messages::", "fields::", "headers::", "swift_message::")):
+            continue
+        w = S.struct_write(t)
+        d = S.de.get(t) or {}
+        vm = d.get("visit_map:main")
+        if w is None or vm is None:
+            continue
+        missing = {}
+        for n in walk(vm["body"]):
+            if n.get("k") == "call" and (n.get("f") or "").endswith("de::missing_field"):
+                key = None
+                for x in n.get("args") or []:
+                    if isinstance(lit_val(x), str):
+                        key = lit_val(x)
+                if key is not None:
+                    missing[key] = (n.get("ga") or ["?"])[0]
+        for key, fld, skip, ln in w:
+            if not skip or key is None:
+                continue
+            r["instances"] += 1
+            ty = missing.get(key)
+            if ty is not None and not ty.startswith("std::option::Option<"):
+                rep.add(Finding("J5", t, "%s:%s" % (key, fld),
+                                "%s omits JSON key \"%s\" (`%s`) when %s holds, but reading requires the key (type "
+                                "%s, no default): the JSON written for such a value cannot be read back"
+                                % (G.short(t), key, fld, skip, G.short(ty)), a["file"], a["line"]))
     return r
 
 
